@@ -206,6 +206,17 @@ int main(int argc, char **argv) {
         if (g.n[d] % s == 0 && g.n[d] / s >= 2) divs.push_back(s);
       g.nsub[d] = divs[r.below(divs.size())];
     }
+    if (taskbased && c % 9 == 4) {
+      // subgrids with more than 10000 cells: the task-based writer splits those into blocks of 10000 cells
+      const int big = 22 + 2 * (int)r.below(3);
+      const int split = (int)r.below(2);  // 0: one subgrid, 1: two subgrids along x (still > 10000 cells for 26^3 only)
+      for (int d = 0; d < 3; ++d) {
+        g.n[d] = big;
+        g.nsub[d] = 1;
+      }
+      if (split && big == 26) g.nsub[0] = 1;
+      st.inc("snapshot_cases_subgrid_above_10000_cells");
+    }
     const uint64_t salt = mix(seed, c);
     // which neutral fractions are written: H only, H and He, all ions
     uint32_t mask;
